@@ -57,6 +57,13 @@ def collect(h):
     if two_pass == one_pass:
         raise h.Missing(f"{rel}: grantsAndRevokes has a shape the model does not cover")
     items.append(("parser_acl_grants_first", "bool", "true" if two_pass else "false", rel + " grantsAndRevokes/handleWorkspace"))
+    # NewRuleAll: does it refuse a filter whose matches have different ACL operation sets (C13-F5)?
+    rel = "pkg/appdef/internal/acl/rule.go"
+    body = h.func_body(rel, r"^func NewRuleAll\(", "NewRuleAll")
+    if "FirstFilterMatch(flt, ws.Types())" not in body or "ACLOperationsForType(t.Kind())" not in body:
+        raise h.Missing(f"{rel}: NewRuleAll no longer takes the operations of the first matching type")
+    uni = re.search(r"for\s+_,\s*(\w+)\s*:=\s*range appdef\.FilterMatches\(flt, ws\.Types\(\)\)\s*\{[^}]*ACLOperationsForType\(\1\.Kind\(\)\)[^}]*Len\(\)\s*!=\s*ops\.Len\(\)[^}]*ContainsAll\(ops\.AsArray\(\)\.\.\.\)[^}]*panic\(", body, re.S) is not None
+    items.append(("acl_all_requires_uniform_ops", "bool", "true" if uni else "false", rel + " NewRuleAll"))
     # system fields recognised by IsSysField (the harness numbers them 0..4 in this order)
     rel = "pkg/appdef/utils_field.go"
     fb = h.func_body(rel, r"^func IsSysField\(", "IsSysField")
